@@ -73,6 +73,25 @@ def rand_desc(rng):
     return desc
 
 
+def split_runs(rng, desc):
+    """the same description with the shell groups of some elements written in two or three separate runs"""
+    if len(desc) == 1:
+        desc = desc + [(rng.choice([e for e in ELEMENTS if e != desc[0][0]]), rand_desc(rng)[0][1])]
+    head, tail = [], []
+    for n, (el, groups) in enumerate(desc):
+        if len(groups) >= 2 and (n == 0 or rng.random() < 0.6):
+            cut = rng.randint(1, len(groups) - 1)
+            head.append((el, groups[:cut]))
+            tail.append((el, groups[cut:]))
+        else:
+            head.append((el, groups))
+    if not tail:
+        el, groups = desc[0]
+        tail.append((el, [groups[0]]))
+    rng.shuffle(tail)
+    return head + tail
+
+
 def tofloat(tok):
     return float(tok.lower().replace("d", "e"))
 
@@ -429,6 +448,13 @@ def check(run):
                     continue
                 lines = render(rng, desc, fmt, npre)
                 parse_case(run, fmt, lines, expected(desc, fmt == "gbs"), str(npre))
+    # NWChem names the element on every shell line, so the shells of one element need not be contiguous (library sets with diffuse /
+    # polarisation shells appended at the end of the block): every element must still get all of its shells, in file order
+    for k in range(6 if quick else 60):
+        desc = split_runs(rng, rand_desc(rng))
+        lines = render(rng, desc, "nw", (0, 1, 2, 7)[k % 4])
+        run.count("NWChem file with non-contiguous element runs")
+        parse_case(run, "nw", lines, expected(desc, False), "runs")
     for k in range(4 if quick else 30):
         repeated_import_case(run, rng, "nw" if k % 2 else "gbs")
     for _ in range(10 if quick else 100):
